@@ -5,5 +5,6 @@ CONSTANTS
   MaxOps = 0
   MaxPick = 1
   Layouts = {"aux-first"}
-INVARIANTS RTypeOK ItfTheorems SubsConsistent GetSeesLastSet GetDenotesLastSet DeliveredIffSubscribed RefsDenoteSent ExecutedOnce ImplHoldsServiceIds ClientRefsResolvable ForwardersSound HandlesFresh
+  Devs = {}
+INVARIANTS RTypeOK ItfTheorems SubsConsistent GetSeesLastSet GetDenotesLastSet DeliveredIffSubscribed RefsDenoteSent ExecutedOnce RightOverloadRuns ImplHoldsServiceIds ClientRefsResolvable ForwardersSound HandlesFresh
 CHECK_DEADLOCK FALSE
